@@ -32,6 +32,7 @@ partial def decTerm : Sexp → Option (Term PVal)
     | "idx", [k, t] => return .index (← decVal k) (← decTerm t)
     | "call", [m, .list as, t] => return .call (← m.atom?) (← as.mapM decVal) (← decTerm t)
     | "flat", [n, t] => return .flatten (← n.nat?) (← decTerm t)
+    | "concat", [n, t] => return .concat (← n.nat?) (← decTerm t)
     | _, _ => none
 
 def decSurfOp : String → Option SurfOp
